@@ -92,6 +92,7 @@ namespace pika {
             {
                 std::unique_lock l(mtx_.data_);
                 notified_ = true;
+                PIKA_VERIF_POINT(50, this);
 
                 // Note: we use notify_one repeatedly instead of notify_all as we
                 // know that our implementation of condition_variable::notify_one
@@ -149,6 +150,7 @@ namespace pika {
             else
             {
                 notified_ = true;
+                PIKA_VERIF_POINT(50, this);
 
                 // Note: we use notify_one repeatedly instead of notify_all as we
                 // know that our implementation of condition_variable::notify_one
